@@ -356,6 +356,18 @@ impl Storage {
             }
         }
 
+        // The pending matched blocks are going to be discarded, but they may contain transactions of
+        // the scripts which are not changed by this command. So the block filters have to be synced
+        // again from the earliest one of them, otherwise those blocks would be skipped silently.
+        if !matches!(command, SetScriptsCommand::All) {
+            if let Some((start_number, _, _)) = self.get_earliest_matched_blocks() {
+                let rewind_to = start_number
+                    .saturating_sub(1)
+                    .min(self.get_min_filtered_block_number());
+                min_block_number = Some(min_block_number.map_or(rewind_to, |n| n.min(rewind_to)));
+            }
+        }
+
         batch.commit().expect("batch commit should be ok");
 
         if let Some(min_number) = min_block_number {
